@@ -6,6 +6,10 @@ __getstate__/__setstate__ and save_hdf5/from_hdf5 tables)
   harness/impl/c17_gen.py (a class without one is a broken correspondence)
 + correspondence: canonical heap (DFS numbering, identity pattern) of what the implementation loaded == canonical form
   of Model/Heap.v's round trip of the original heap, evaluated inside Coq
++ correspondence `pipe-reinit`: LegPipe(legs, qconj, sort, bunch) of the real code -> Hdf5Saver -> the h5py file read raw
+  (attrs sorted/bunched/qconj, chinfo, legs, slices/charges) == Model/PipeReinit.v:pipe_save; the pipe rebuilt by
+  LegPipe.from_hdf5 and the unpickled pipe (charges, slices, q_map, q_map_slices, _perm, _strides, sorted, bunched, legs,
+  qconj) == pipe_load; the constructed pipe == pipe_construct (Model/PipeReinitCheck.v:check_pipe_reinit, vm_compute)
 + oracle: independent deep comparison original <-> loaded (types, values, dtypes, identity pattern both ways),
   dense-level observations (to_ndarray, qflat, overlaps, MPO.is_equal) and test_sanity() of every loaded object,
   for HDF5 in every LegCharge format, pickle and copy.deepcopy.
@@ -244,12 +248,141 @@ def static_tables(ctx):
     return len(st), len(hd), len(calls)
 
 
+# ------------------------------------------------------------------------------------------------
+# LegPipe re-initialisation: Model/PipeReinit.v <-> LegPipe.save_hdf5 / from_hdf5 / pickle
+# ------------------------------------------------------------------------------------------------
+
+PIPE_MODS = [[], [1], [2], [3], [1, 1], [1, 2], [3, 1], [2, 3], [1], [1]]
+PIPE_REC_KEYS = ['charges', 'slices', 'q_map', 'q_map_slices', 'perm', 'strides', 'sorted', 'bunched', 'legs', 'qconj']
+
+
+def gen_pipe_inputs(rng):
+    """(mods, legs, qconj): 1..3 legs of 1..3 blocks (sizes 0..2), valid charges, qconj of legs and pipe +-1"""
+    mods = rng.choice(PIPE_MODS)
+    n = rng.choice([1, 2, 2, 2, 3])
+    legs = []
+    for _ in range(n):
+        b = rng.randint(1, 3)
+        ch = [[x if m == 1 else x % m for m, x in zip(mods, [rng.randint(-2, 2) for _ in mods])] for _ in range(b)]
+        legs.append([[rng.choice([0, 1, 1, 2, 2]) for _ in range(b)], ch, rng.choice([1, -1])])
+    if rng.random() < 0.15:      # single-block legs: fast path of LegPipe.__init__ (sorted = bunched = True whatever the arguments)
+        legs = [[l[0][:1], l[1][:1], l[2]] for l in legs]
+    return mods, legs, rng.choice([1, -1])
+
+
+def _zl(xs):
+    return '(@nil Z)' if not xs else '[' + '; '.join('(%d)' % x for x in xs) + ']'
+
+
+def _zll(xss):
+    return '(@nil (list Z))' if not xss else '[' + '; '.join(_zl(x) for x in xss) + ']'
+
+
+def _bl(b):
+    assert isinstance(b, bool)
+    return 'true' if b else 'false'
+
+
+def _legs_lit(legs):
+    def blocks(sizes, charges):
+        assert len(sizes) == len(charges)
+        return '(@nil (Z * list Z))' if not sizes else '[' + '; '.join('((%d), %s)' % (sz, _zl(c)) for sz, c in zip(sizes, charges)) + ']'
+    if not legs:
+        return '(@nil (list (Z * list Z) * Z))'
+    return '[' + '; '.join('(%s, (%d))' % (blocks(l[0], l[1]), l[2]) for l in legs) + ']'
+
+
+def _pipe_rec_lit(r):
+    perm = '(@None (list Z))' if r['perm'] is None else '(Some %s)' % _zl(r['perm'])
+    return '(%s, %s, %s, %s, %s, %s, %s, %s, %s, (%d))' % (
+        _zll(r['charges']), _zl(r['slices']), _zll(r['q_map']), _zl(r['q_map_slices']), perm, _zl(r['strides']),
+        _bl(r['sorted']), _bl(r['bunched']), _legs_lit(r['legs']), r['qconj'])
+
+
+def pipe_reinit_lit(case, x):
+    f = x['file']
+    file_lit = '(%s, %s, (%d), %s, %s, %s, %s)' % (_bl(f['sorted']), _bl(f['bunched']), f['qconj'], _zl(f['mods']), _legs_lit(f['legs']),
+                                                   _zll(f['charges']), _zl(f['slices']))
+    return '(%s, %s, (%d), %s, %s, %s, %s, %s, %s)' % (
+        _zl(case['mods']), _legs_lit(case['legs']), case['qconj'], _bl(case['sort']), _bl(case['bunch']), file_lit,
+        _pipe_rec_lit(x['orig']), _pipe_rec_lit(x['h5']), _pipe_rec_lit(x['pickle']))
+
+
+def pipe_reinit_stream(ctx, rng, intens, replay, tm):
+    """stream `pipe-reinit`: ties Model/PipeReinit.v (attr_sorted / attr_bunched, pipe_save, pipe_load) to the code"""
+    import time
+    t0 = time.time()
+    cases = []
+    if replay is not None:
+        if replay.get('stream') == 'pipe-reinit':
+            cases = [dict(replay['case'])]
+    else:
+        ninp = ctx.pick(60, 300) * intens
+        for i in range(ninp):
+            mods, legs, qconj = gen_pipe_inputs(rng)
+            for srt in (True, False):
+                for bun in (True, False):
+                    cases.append({'mods': mods, 'legs': legs, 'qconj': qconj, 'sort': srt, 'bunch': bun,
+                                  'format': ['blocks', 'compact'][(i + srt) % 2]})
+    if not cases:
+        return
+    nchunk = min(common.NPROC, 8)
+    chunks = [cases[i::nchunk] for i in range(nchunk)]
+    res = common.run_impl_parallel('c17_impl.py', [{'kind': 'pipe_reinit', 'cases': ch} for ch in chunks if ch], optimize0=True, timeout=600)
+    lits, meta = [], []
+    hist = {'cases': 0, 'single_block_fast_path': 0, 'qnumber0': 0, 'flags_differ_from_arguments': 0, 'with_perm': 0,
+            'saved(sorted,bunched)': {}}
+    for ci, (r, err) in enumerate(res):
+        if err:
+            ctx.fail('correspondence', 'pipe-reinit runner failed: ' + err[-800:], None)
+            continue
+        for c, x in zip([ch for ch in chunks if ch][ci], r):
+            case = {'stream': 'pipe-reinit', 'case': c}
+            single = all(len(l[0]) == 1 for l in c['legs'])
+            nblocks = 1
+            for l in c['legs']:
+                nblocks *= len(l[0])
+            ctx.count('pipe-reinit', [c['mods'], c['legs'], c['qconj'], c['sort'], c['bunch'], c['format']], nontrivial=nblocks > 1,
+                      sample={'case': c, 'file': x.get('file'), 'loaded_sorted_bunched': [x.get('h5', {}).get('sorted'), x.get('h5', {}).get('bunched')]})
+            if 'error' in x:
+                ctx.fail('correspondence', 'pipe-reinit: LegPipe through HDF5/pickle raised %s: %s [%s]' % (x['error'], x['message'][:200], x['where']), case)
+                continue
+            hist['cases'] += 1
+            hist['single_block_fast_path'] += single
+            hist['qnumber0'] += not c['mods']
+            hist['flags_differ_from_arguments'] += (x['file']['sorted'], x['file']['bunched']) != (c['sort'], c['bunch'])
+            hist['with_perm'] += x['h5']['perm'] is not None
+            k = '%s,%s' % (x['file']['sorted'], x['file']['bunched'])
+            hist['saved(sorted,bunched)'][k] = hist['saved(sorted,bunched)'].get(k, 0) + 1
+            # oracle (property text): the loaded pipe is observationally equal to the saved one, documented attributes + private caches
+            for how in ('h5', 'pickle'):
+                diff = [a for a in PIPE_REC_KEYS + ['mods', 'nlegs', 'subshape', 'subqshape', 'ind_len', 'block_number'] if x[how][a] != x['orig'][a]]
+                if diff:
+                    ctx.fail('oracle', 'LegPipe(sort=%s, bunch=%s) through %s (%s): attributes %s of the loaded pipe differ from the saved pipe'
+                             % (c['sort'], c['bunch'], how, c['format'], diff), case, match_key='C17:pipe-reinit:%s:differs' % how)
+            lits.append(pipe_reinit_lit(c, x))
+            meta.append((case, x))
+    bad, err = common.coq_failing_indices('pipe_reinit_c17', ['Base.Prelude', 'Model.ChargeL', 'Model.Leg', 'Model.Pipe', 'Model.PipeCase',
+                                                              'Model.PipeReinit', 'Model.PipeReinitCheck'], 'check_pipe_reinit', lits, shard=80)
+    if err:
+        ctx.fail('correspondence', 'pipe-reinit: model evaluation failed: ' + err[-600:], None)
+    for b in bad[:5]:
+        case, x = meta[b]
+        ctx.fail('correspondence', 'Model/PipeReinit.v (pipe_save / pipe_load / pipe_construct) and LegPipe save_hdf5 / from_hdf5 / pickle disagree '
+                 '(sort=%s, bunch=%s, format %s): file sorted=%s bunched=%s, loaded sorted=%s bunched=%s'
+                 % (case['case']['sort'], case['case']['bunch'], case['case']['format'], x['file']['sorted'], x['file']['bunched'],
+                    x['h5']['sorted'], x['h5']['bunched']), dict(case, recorded={k: x[k] for k in ('file', 'orig', 'h5', 'pickle')}))
+    hist['model_disagreements'] = len(bad)
+    ctx.cov['pipe_reinit_distribution'] = hist
+    tm['pipe_reinit'] = round(time.time() - t0, 1)
+
+
 def main(ctx):
     import time
     rng = ctx.rng
     tm = {}
     t0 = time.time()
-    ctx.proof = common.check_proofs('C17')
+    ctx.proof = common.check_proofs('C17', extra_targets=['Model/PipeReinitCheck.vo'])
     tm['proofs'] = round(time.time() - t0, 1)
     ctx.cov['phase_seconds'] = tm
     intens = 1 if ctx.proof.ok else 3
@@ -262,6 +395,12 @@ def main(ctx):
         static_tables(ctx)
     except Exception as e:
         ctx.fail('correspondence', 'static table extraction failed: %r' % (e,), None)
+
+    # ---- LegPipe re-initialisation: Model/PipeReinit.v executed against save_hdf5 / from_hdf5 / pickle
+    try:
+        pipe_reinit_stream(ctx, rng, intens, replay, tm)
+    except Exception as e:
+        ctx.fail('correspondence', 'pipe-reinit stream crashed: %r' % (e,), None)
 
     # ---- reflection
     (disc, err), (gl, err2) = common.run_impl_parallel('c17_impl.py', [{'kind': 'discover'}, {'kind': 'list_generators'}])
@@ -463,11 +602,14 @@ def main(ctx):
     ]
     return ctx.finish(RULE, 'T17_* of coq/Props/C17.v (memoised DFS copy of any finite heap is an isomorphism onto the copy: sharing and cycles '
                       'survive; LegCharge encodings; regenerated state/attribute tables) + reflective coverage of every exporting class + '
-                      'deep comparison and canonical-heap correspondence of HDF5 (3 leg formats), pickle and deepcopy round trips')
+                      'deep comparison and canonical-heap correspondence of HDF5 (3 leg formats), pickle and deepcopy round trips + '
+                      'Model/PipeReinit.v (pipe_save / pipe_load) executed against LegPipe.save_hdf5 (raw file content) / from_hdf5 / pickle')
 
 
 RULE = ('objects: every generator of c17_gen.py (one per exporting class found by reflection, all variants: charge structures, leg styles, '
         'pipes, tensors, all predefined sites, MPS finite/infinite/segment, MPO, all lattices, all models, terms, errors, configs, container zoo) '
         'x {hdf5 blocks/compact/flat, pickle, deepcopy}; non-trivial when more than one value was compared; distinct = (generator, variant, seed, method). '
         'graphs: random heaps of 1-10 containers (list/tuple/set/dict simple+general keys/instances) with sharing, self references and cycles x '
-        '{hdf5, pickle, deepcopy}; non-trivial when more than one node is reachable.  reflection: one case per discovered class.')
+        '{hdf5, pickle, deepcopy}; non-trivial when more than one node is reachable.  reflection: one case per discovered class.  '
+        'pipe-reinit: random LegPipes (1-3 incoming legs of 1-3 blocks with sizes 0-2, qconj +-1, chinfo none / U(1) / Z_2 / Z_3 / two charges, '
+        '15% single-block legs) x all four (sort, bunch) x LegCharge format blocks/compact; non-trivial when the pipe has more than one incoming block tuple.')
